@@ -218,7 +218,17 @@ func H_C20_mutated() {
 	if vfTier() == 1 {
 		nf = len(c20Fragments)
 	}
-	f := c20Fragments[ndChoice("frag", nf)]
+	fi := ndChoice("frag", nf+1)
+	if fi == nf {
+		// (quick: plus the ternary fragment, whose operands are single bytes)
+		for k, fr := range c20Fragments {
+			if fr == "{{ a ? b : c ? d : e }}" {
+				fi = k
+			}
+		}
+		vfAssume(fi < len(c20Fragments))
+	}
+	f := c20Fragments[fi]
 	k := ndChoice("at", len(f))
 	src := f[:k] + ndString("m", 1) + f[k+1:]
 	if vfTier() == 1 && ndChoice("nest", 2) == 1 {
@@ -293,13 +303,13 @@ func c20Check(t *jet.Template) {
 // H_C20_deep: trees far deeper and wider than the fragments': a sum / a logical chain of N
 // operands (left-nested N deep), N nested if / range / block bodies, N nested parentheses
 // and index expressions, a pipeline of N stages and a list of N sibling actions, for N up
-// to 150 (300 in the thorough tier): every node is still visited, once, in tree order.
+// to 150 (200 in the thorough tier): every node is still visited, once, in tree order.
 //
 //gosym:reach walked
 func H_C20_deep() {
 	ns := []int{3, 99, 100, 101, 150}
 	if vfTier() == 1 {
-		ns = append(ns, 300)
+		ns = append(ns, 200)
 	}
 	n := ns[ndChoice("n", len(ns))]
 	shape := ndChoice("shape", 8)
@@ -352,4 +362,34 @@ func H_C20_deep() {
 		}
 		vfAssert(same, "nodes are visited in tree order")
 	}
+}
+
+// H_C20_nearGrammar: spellings just outside the grammar - an operand, argument, bound or
+// clause left out where one is required - as a lenient parser might come to accept them:
+// whatever IS accepted must be walked like everything else (no nil node handed to the
+// visitor, no panic, every node once); what is rejected is not claimed.
+//
+//gosym:reach rejected
+func H_C20_nearGrammar() {
+	near := []string{
+		`{{ a ?: c }}`, `{{ a ? : c }}`, `{{ a ? b : }}`, `{{ a ? b }}`, `{{ f(a ?: c, d) }}`, `{{ a || }}`, `{{ && a }}`,
+		`{{ f(a,) }}`, `{{ f(,a) }}`, `{{ a[] }}`, `{{ a[:] }}`, `{{ a | }}`, `{{ | a }}`, `{{ a. }}`, `{{ x := }}`, `{{ x, y := a }}`,
+		`{{ if }}x{{ end }}`, `{{ range }}x{{ end }}`, `{{ range k, := a }}x{{ end }}`, `{{ if a }}x{{ else if }}y{{ end }}`,
+		`{{ yield }}`, `{{ yield b }}`, `{{ yield b( }}`, `{{ yield b(a=) }}`, `{{ block b(a=) }}x{{ end }}`, `{{ block }}x{{ end }}`,
+		`{{ include }}`, `{{ return }}`, `{{ try }}x{{ catch e f }}y{{ end }}`, `{{ - }}`, `{{ ! }}`, `{{ () }}`, `{{ a ? b : c : d }}`,
+	}
+	c := ndChoice("case", len(near))
+	nest := ndBool("nested")
+	src := near[c]
+	if nest {
+		src = `{{ range r }}{{ if c }}` + src + `{{ end }}{{ end }}`
+	}
+	l := jet.NewInMemLoader()
+	set := jet.NewSet(l)
+	t, err := set.Parse("/t.jet", src)
+	if err != nil {
+		vfReach("rejected")
+		return
+	}
+	c20Check(t)
 }
